@@ -219,7 +219,8 @@ theorem simW_act' {tmpl : Term} {N : Nat} {env : Env} {σ : Subst} {π : Nat →
       (∀ t : Term, InD D t → img σ π₁ t = img σ π t) ∧
       (∀ t : Term, (∀ x, t.hasVar x = true → V x) →
         img σ π₁ (t.rename (renOf tbl (freshL Nm tbl.length))) = t.rename κ ∧
-        InD D' (t.rename (renOf tbl (freshL Nm tbl.length)))) := by
+        InD D' (t.rename (renOf tbl (freshL Nm tbl.length)))) ∧
+      (∀ v, D' v → D v ∨ ∃ x, V x ∧ v = renOf tbl (freshL Nm tbl.length) x) := by
   let ρ := renOf tbl (freshL Nm tbl.length)
   let M := Nm + tbl.length
   let π₁ : Nat → Nat := fun v => if Nm ≤ v ∧ v < M then κ (tbl.getD (v - Nm) 0) else π v
@@ -256,7 +257,7 @@ theorem simW_act' {tmpl : Term} {N : Nat} {env : Env} {σ : Subst} {π : Nat →
     show (if Nm ≤ x ∧ x < M then _ else π x) = π x
     rw [if_neg (by omega)]
   refine ⟨π₁, D', ⟨h.mg.mono (by omega), h.chain, by have := h.pos; omega, ?_, ?_, ?_,
-    fun v hv => Or.inl (h.tmplD v hv)⟩, fun v hv => Or.inl hv, ?_, ?_⟩
+    fun v hv => Or.inl (h.tmplD v hv)⟩, fun v hv => Or.inl hv, ?_, ?_, fun v hv => hv⟩
   · rintro v (hv | ⟨x, hx, rfl⟩)
     · have := h.dlt v hv; omega
     · have := hρ x hx; have := h.pos; omega
@@ -304,7 +305,7 @@ theorem simW_act {tmpl : Term} {N : Nat} {env : Env} {σ : Subst} {π : Nat → 
       (∀ t : Term, (∀ x, t.hasVar x = true → V x) →
         img σ π₁ (t.rename (renOf tbl (freshL Nm tbl.length))) = SLD.shift nv t ∧
         InD D' (t.rename (renOf tbl (freshL Nm tbl.length)))) := by
-  obtain ⟨π₁, D', h1, h2, h3, h4⟩ := simW_act' h hNm hnd V (· + nv) (nv + K) (fun x hx => (hV x hx).1)
+  obtain ⟨π₁, D', h1, h2, h3, h4, _⟩ := simW_act' h hNm hnd V (· + nv) (nv + K) (fun x hx => (hV x hx).1)
     (Nat.le_add_right _ _) (fun x y _ _ hxy => by omega)
     (fun x u _ hu => by have := h.bnd u hu; omega) (fun x hx => by have := (hV x hx).2; omega)
   refine ⟨π₁, D', h1, h2, h3, fun t ht => ?_⟩
